@@ -11,6 +11,7 @@ import DocsModel.Model.Ranger
 import DocsModel.Model.Replica
 import DocsModel.Model.Events
 import DocsModel.Model.Actor
+import DocsModel.Model.Rpc
 import DocsModel.Model.Codec
 import DocsModel.Model.Session
 import DocsModel.Model.Coord
@@ -249,6 +250,18 @@ def showReply : Actor.Reply → String
   | .errReadOnly => "err:read-only"
   | .errNotClosed => "err:not-closed"
   | .errValidation => "err:validation"
+
+/-- parse a client-API request (`Model/Rpc.lean`) -/
+def parseApiReq? : List String → Option Rpc.Req
+  | ["import", ns, kind, raw] => do pure (.importNs (← Bytes.ofHex ns) (← parseNat? kind) (← Bytes.ofHex raw))
+  | ["open", ns] => do pure (.openDoc (← Bytes.ofHex ns))
+  | ["close", ns] => do pure (.closeDoc (← Bytes.ofHex ns))
+  | ["set", tok] => do let e ← parseEntry? tok; pure (.setHash e.ns e)
+  | ["drop", ns] => do pure (.dropDoc (← Bytes.ofHex ns))
+  | ["getexact", ns, au, key, incl] => do
+    pure (.getExact (← Bytes.ofHex ns) (← Bytes.ofHex au) (← Bytes.ofHex key) (← parseBool? incl))
+  | ["status", ns] => do pure (.status (← Bytes.ofHex ns))
+  | _ => none
 
 /-- parse an actor action: `<kind> args…` -/
 def parseAction? : List String → Option Actor.Action
@@ -867,6 +880,42 @@ def step (w : World) (line : String) : World × String :=
           | _, _ => w
         (w.setActor sid st', showReply r)
       | none => (w, "no-store")
+    | _, _ => (w, "bad-op")
+  -- a request of the client API handled by `Rpc.step` on actor sid
+  | "api" :: sid :: rest =>
+    -- `setq`: `set_hash` does not report the removal count
+    let quiet := rest.head? == some "setq"
+    let rest := match rest with
+      | "setq" :: r => "set" :: r
+      | r => r
+    match parseNat? sid, parseApiReq? rest with
+    | some sid, some r =>
+      match w.getActor sid with
+      | some st =>
+        let (st', out) := Rpc.step st r
+        (w.setActor sid st', match quiet, out with | true, .inserted _ => "inserted" | _, o => showReply o)
+      | none => (w, "no-store")
+    | _, _ => (w, "bad-op")
+  | ["apilist", sid] =>
+    match parseNat? sid with
+    | some sid =>
+      match w.getActor sid with
+      | some st => (w, "namespaces " ++ ";".intercalate ((Rpc.list st).map fun (ns, kind) => ns.toHex ++ "=" ++ toString kind))
+      | none => (w, "no-store")
+    | none => (w, "bad-op")
+  -- history of the client API for the specification `swritable`: an import (kind 1 write, 2 read)
+  -- that was answered ok, or a drop that was answered ok
+  | ["shist", sid, "import", ns, kind] =>
+    match parseNat? sid, Bytes.ofHex ns, parseNat? kind with
+    | some sid, some ns, some kind =>
+      let hist := (w.imports.lookup sid).getD []
+      ({ w with imports := (sid, (ns, kind) :: hist) :: w.imports.filter (·.1 != sid) }, "ok")
+    | _, _, _ => (w, "bad-op")
+  | ["shist", sid, "drop", ns] =>
+    match parseNat? sid, Bytes.ofHex ns with
+    | some sid, some ns =>
+      let hist := (w.imports.lookup sid).getD []
+      ({ w with imports := (sid, hist.filter (·.1 != ns)) :: w.imports.filter (·.1 != sid) }, "ok")
     | _, _ => (w, "bad-op")
   -- specification: the sync switch of an open document according to the request history
   | ["ssync", sid, ns] =>
